@@ -151,7 +151,7 @@ def replay(c):
                 return True, d
         return False, 'mixed tree behaves'
     if c['kind'] == 'hang':
-        return (True, 'exceeded 5 s again') if hist.hangs(c['cls'], c['witness']['ops'], xsd_check=False) else (False, 'finished within the limit')
+        return (True, 'exceeded 30 s again') if hist.hangs(c['cls'], c['witness']['ops'], xsd_check=False) else (False, 'finished within the limit')
     for k, d in judge_concrete(c['cls'], c['witness']['ops'], c['witness']):
         if k == c['kind']:
             return True, d
